@@ -90,6 +90,33 @@ Check (C01_simulation_rest :
     Forall2 (vrel tco) ws mws /\
     R1 tco (bind xs ws r') (body_cenv xs fvs) mws caps).
 
+Check (C01_callglobal_fusion :
+  forall limit C C' pc g n st fs MG,
+  nth_error C pc = Some (PUSH g) -> nth_error C (S pc) = Some (FUNC n) ->
+  nth_error C' pc = Some (CALLGLOBAL g) -> nth_error C' (S pc) = Some (FUNC n) ->
+  match vm_step limit (mkVM C pc st fs MG) with
+  | SErr k => vm_step limit (mkVM C' pc st fs MG) = SErr k
+  | SNext s1 =>
+      match vm_step limit s1, vm_step limit (mkVM C' pc st fs MG) with
+      | SErr k, r => r = SErr k
+      | SStuck, r => r = SStuck
+      | SNext a, SNext b =>
+          (code a = C /\ b = with_code C' a) \/
+          (exists fr, frames a = fr :: fs /\ f_ret_code fr = C /\
+                      b = mkVM (code a) (ip a) (stack a) (mkFrame (f_sp fr) (f_fn fr) (f_ret_ip fr) C' :: fs) (globals a))
+      | _, _ => False
+      end
+  | _ => False
+  end).
+
+Check (C01_callglobaltail_fusion :
+  forall limit C C' pc g n st fs MG arity rest body caps,
+  nth_error C pc = Some (PUSH g) -> nth_error C (S pc) = Some (TAILCALL n) ->
+  nth_error C' pc = Some (CALLGLOBALTAIL g) -> nth_error C' (S pc) = Some (TAILCALL n) ->
+  Core.lookup g MG = Some (MClo arity rest body caps) ->
+  exists s1, vm_step limit (mkVM C pc st fs MG) = SNext s1 /\
+             vm_step limit s1 = vm_step limit (mkVM C' pc st fs MG)).
+
 Print Assumptions C01_simulation_L0.
 Print Assumptions C01_simulation_tail.
 Print Assumptions C01_program_simulation.
@@ -98,3 +125,5 @@ Print Assumptions C01_var_latest.
 Print Assumptions C01_dead_code_silent.
 Print Assumptions C01_call_args_exact.
 Print Assumptions C01_simulation_rest.
+Print Assumptions C01_callglobal_fusion.
+Print Assumptions C01_callglobaltail_fusion.
